@@ -151,7 +151,7 @@ Proof.
   destruct s as [[idx st res] pend q cur lg].
   unfold cur_ok, done_h, partial_log, cur_list, pend_list in *.
   cbn [st_p st_pend st_queue st_cur st_log p_index p_state p_results] in *.
-  destruct l; unfold step in Hstep; cbn [st_p st_pend st_queue st_cur st_log p_index p_state p_results set_cur] in Hstep.
+  destruct l; unfold step, set_cur in Hstep; cbn [st_p st_pend st_queue st_cur st_log p_index p_state p_results] in Hstep.
   - (* LIndex *)
     destruct pend as [hp|]; [discriminate|]. injection Hstep as <-.
     constructor; unfold cur_ok, done_h, partial_log, cur_list, pend_list;
@@ -169,7 +169,7 @@ Proof.
       cbn [st_p st_pend st_queue st_cur st_log p_index p_state p_results].
     + exact Hcur.
     + exact Hlog.
-    + exists len. split; [|exact Hidx]. rewrite app_nil_r. rewrite <- Hch. now rewrite <- !app_assoc.
+    + exists len. split; [|exact Hidx]. rewrite app_nil_r. exact Hch.
     + rewrite app_length. cbn [length]. unfold queue_cap in Ecap. lia.
   - (* LTake *)
     destruct cur as [[hc stg]|]; [discriminate|]. destruct q as [|h q']; [discriminate|]. injection Hstep as <-.
@@ -194,8 +194,8 @@ Proof.
     destruct Hcur as [Hh Hres].
     constructor; unfold cur_ok, done_h, partial_log, cur_list, pend_list;
       cbn [st_p st_pend st_queue st_cur st_log p_index p_state p_results].
-    + repeat split; try lia. exact Hres.
-    + cbn [N.to_nat upto map]. rewrite app_nil_r. rewrite app_nil_r in Hlog. rewrite Hlog. f_equal. lia.
+    + repeat split; first [lia | exact Hres].
+    + replace (N.pred hc) with st by lia. cbn [N.to_nat upto map]. exact Hlog.
     + exists len. replace (N.pred hc) with st by lia. split; [exact Hch | exact Hidx].
     + exact Hq.
   - (* LNotify *)
@@ -261,12 +261,12 @@ Proof.
     destruct cur as [[hc stg]|]; destruct pend; cbn [length] in Hch; lia. }
   destruct cur as [[hc [| |j]]|].
   - destruct Hcur as [Hh Hres]. cbn [app] in Hch. apply upto_cons_inv in Hch as [len' [-> _]].
-    repeat split; try lia. now left.
+    repeat split; first [lia | now left].
   - destruct Hcur as [Hh Hres]. cbn [app] in Hch. apply upto_cons_inv in Hch as [len' [-> _]].
-    repeat split; try lia. now left.
+    repeat split; first [lia | now left].
   - destruct Hcur as [Hh [Hres [Hj H1]]]. cbn [app] in Hch. apply upto_cons_inv in Hch as [len' [-> _]].
-    subst hc. repeat split; try lia. right. split; [lia | now exists j].
-  - repeat split; try lia. now left.
+    subst hc. repeat split; first [lia | right; split; [lia | now exists j]].
+  - repeat split; first [lia | now left].
 Qed.
 
 (* ---- recovery on reachable states ------------------------------------------------------------------------------------- *)
@@ -279,7 +279,7 @@ Proof.
   unfold recover, extract. cbn [p_index p_state p_results].
   destruct (idx =? 0) eqn:E0.
   - apply N.eqb_eq in E0. subst idx. reflexivity.
-  - rewrite N.eqb_refl. cbn [negb andb]. rewrite N.eqb_refl.
+  - rewrite N.eqb_refl. cbn [negb andb].
     cbn [p_index]. rewrite N.ltb_irrefl. rewrite N.sub_diag. reflexivity.
 Qed.
 
@@ -330,12 +330,11 @@ Proof.
       subst hc. now rewrite <- Heq. }
     split.
     + intros h Hh. apply in_or_app. destruct (N.eq_dec h i) as [->|Hne].
-      * right. apply in_or_app. right. now left.
-      * left. apply In_upto. lia.
-    + destruct Hpart as [-> | ->]; cbn [app].
-      * apply nondecb_app_one; [apply nondecb_upto|]. intros x Hx. apply In_upto in Hx. lia.
-      * change [i; i] with ([i] ++ [i]). rewrite app_assoc.
-        apply nondecb_app_one.
+      * right. now left.
+      * left. apply in_or_app. left. apply In_upto. lia.
+    + destruct Hpart as [-> | ->].
+      * rewrite app_nil_r. apply nondecb_app_one; [apply nondecb_upto|]. intros x Hx. apply In_upto in Hx. lia.
+      * apply nondecb_app_one.
         -- apply nondecb_app_one; [apply nondecb_upto|]. intros x Hx. apply In_upto in Hx. lia.
         -- intros x Hx. apply in_app_or in Hx as [Hx | [<- | []]]; [apply In_upto in Hx|]; lia.
   - (* block i committed, some subscribers not yet notified *)
@@ -343,12 +342,11 @@ Proof.
     { unfold partial_log. rewrite Hc. rewrite proj_prefix. destruct (_ && _); [right | now left]. now rewrite <- Heq. }
     split.
     + intros h Hh. apply in_or_app. destruct (N.eq_dec h i) as [->|Hne].
-      * right. apply in_or_app. right. now left.
-      * left. apply In_upto. lia.
-    + destruct Hpart as [-> | ->]; cbn [app].
-      * apply nondecb_app_one; [apply nondecb_upto|]. intros x Hx. apply In_upto in Hx. lia.
-      * change [i; i] with ([i] ++ [i]). rewrite app_assoc.
-        apply nondecb_app_one.
+      * right. now left.
+      * left. apply in_or_app. left. apply In_upto. lia.
+    + destruct Hpart as [-> | ->].
+      * rewrite app_nil_r. apply nondecb_app_one; [apply nondecb_upto|]. intros x Hx. apply In_upto in Hx. lia.
+      * apply nondecb_app_one.
         -- apply nondecb_app_one; [apply nondecb_upto|]. intros x Hx. apply In_upto in Hx. lia.
         -- intros x Hx. apply in_app_or in Hx as [Hx | [<- | []]]; [apply In_upto in Hx|]; lia.
 Qed.
@@ -361,12 +359,10 @@ Lemma notify_run ns p h : forall m j lg,
   = Some (mkS p None [] None (lg ++ map (fun x => (x, h)) (upto j m))).
 Proof.
   induction m as [|m IH]; intros j lg Hj.
-  - cbn [repeat app run step st_cur set_cur st_p st_pend st_queue st_log upto map].
+  - cbn [repeat app run]. unfold step, set_cur. cbn [st_cur st_p st_pend st_queue st_log upto map].
     replace (j =? ns) with true by lia. now rewrite app_nil_r.
-  - cbn [repeat app run]. unfold step at 1. cbn [st_cur set_cur st_p st_pend st_queue st_log].
+  - cbn [repeat app run]. unfold step at 1. unfold set_cur. cbn [st_cur st_p st_pend st_queue st_log].
     replace (j <? ns) with true by lia.
-    change (mkS p None [] (Some (h, SCommitted (N.succ j))) (lg ++ [(j, h)])) with
-      (mkS p None [] (Some (h, SCommitted (N.succ j))) (lg ++ [(j, h)])).
     rewrite IH by lia. cbn [upto map]. now rewrite <- app_assoc.
 Qed.
 
@@ -381,8 +377,8 @@ Proof.
   unfold step at 1. cbn [st_p st_pend st_queue st_cur st_log p_index p_state p_results length N.of_nat].
   change (0 <? queue_cap) with true. cbn iota. cbn [app].
   unfold step at 1. cbn [st_p st_pend st_queue st_cur st_log p_index p_state p_results].
-  unfold step at 1. cbn [st_p st_pend st_queue st_cur st_log p_index p_state p_results set_cur].
-  unfold step at 1. cbn [st_p st_pend st_queue st_cur st_log p_index p_state p_results set_cur].
+  unfold step at 1. unfold set_cur. cbn [st_p st_pend st_queue st_cur st_log p_index p_state p_results].
+  unfold step at 1. unfold set_cur. cbn [st_p st_pend st_queue st_cur st_log p_index p_state p_results].
   rewrite notify_run by lia. reflexivity.
 Qed.
 
